@@ -468,7 +468,10 @@ def run_property(pid, spec, tier, seed, only=None, jobs=0):
                 # a deviation from the harness's store-lookup script (or any other harness-model mismatch flagged by a shim) says
                 # that the harness no longer fits the code, not that the property is violated: inconclusive, never an alarm
                 script = [f for f in parsed["failed"] if "verif-script:" in f["desc"] or "store shim:" in f["desc"] or "kcoll: capacity" in f["desc"]
-                          or "tokio shim:" in f["desc"] or "futures shim:" in f["desc"]]
+                          or "tokio shim:" in f["desc"] or "futures shim:" in f["desc"] or "rocksdb shim:" in f["desc"]
+                          # a lowered function awaited something that is not ready in the sequential model (e.g. a refactoring
+                          # that moves a genuine wait into a helper): the lowering no longer fits the code
+                          or "verif: awaited future not ready" in f["desc"] or "verif: future unexpectedly pending" in f["desc"]]
                 if script:
                     sample["status"] = "HARNESS-MISMATCH"
                     sample["failed"] = [f["desc"] + " @ " + f["loc"] for f in script]
